@@ -28,8 +28,8 @@ PROPS = {
     'C02': dict(
         level='model_checking', design_ref='5/C02', oracle='C02',
         technique='explicit-state exploration of the real back-ends + reference-model conformance on the exit/action/entry order',
-        quick=[S('flat'), S('hier2'), S('hier3'), S('entry')],
-        thorough=[S('flat'), S('hier2'), S('hier3'), S('entry'), S('histN'), S('histA'), S('histS'), S('ortho'), S('wide')],
+        quick=[S('flat'), S('hier2'), S('hier3'), S('entry'), S('twosub')],
+        thorough=[S('flat'), S('hier2'), S('hier3'), S('entry'), S('histN'), S('histA'), S('histS'), S('ortho'), S('wide'), S('twosub')],
         rule='every edge of the state graph from every reachable configuration under every guard valuation; '
              'non-trivial when an exit, action or entry ran',
     ),
@@ -44,8 +44,8 @@ PROPS = {
     'C07': dict(
         level='model_checking', design_ref='5/C07', oracle='C07',
         technique='explicit-state exploration of the real back-ends + reference-model conformance on bubbling and cascades',
-        quick=[S('hier2'), S('hier3'), S('hier4'), S('entry')],
-        thorough=[S('hier2'), S('hier3'), S('hier4'), S('entry'), S('histA'), S('wide')],
+        quick=[S('hier2'), S('hier3'), S('hier4'), S('entry'), S('twosub')],
+        thorough=[S('hier2'), S('hier3'), S('hier4'), S('entry'), S('histA'), S('wide'), S('twosub')],
         rule='every reachable configuration of the nested machines x event x guard valuation; non-trivial when any callback ran',
     ),
     'C03': dict(
@@ -71,7 +71,9 @@ PROPS = {
         level='model_checking', design_ref='5/C09', oracle='C09',
         technique='explicit-state exploration of direct/fork/entry-point/exit-point rows incl. the exit event sent from outside + reference-model conformance',
         quick=[S('entry'), S('histS', cfgs=['b', 'bc', 'b11', 'm'])],
-        thorough=[S('entry'), S('histS'), S('histA'), S('histN')],
+        thorough=[S('entry'), S('histS'), S('histA'), S('histN'),
+                  # exit points on a submachine WITH history (back family: backmp11 does not re-fire a restored exit point, see DESIGN 11.6)
+                  S('entryA', cfgs=['b', 'bc', 'bq', 'b11']), S('entryS', cfgs=['b', 'bc', 'bq', 'b11'])],
         rule='every reachable configuration of the submachine x every event (incl. the exit point event from outside) x guard valuations',
     ),
     'C04': dict(
@@ -166,6 +168,7 @@ PROPS = {
         level='model_checking', design_ref='5/C13', custom='lockstep', oracle=None, engine='lockstep',
         technique='lock-step exploration of the product of all seven back-end configurations under identical operations and environment answers; equality of normalised observations',
         quick=[dict(zoo=z, cfgs=ALL, ops=pe_all(z), compare_ids=True) for z in ('flat_c', 'hier2_c', 'ortho_c', 'entry_c', 'histS')] +
+              [dict(zoo='twosub', cfgs=ALL, ops=pe_all('twosub'), act_in_trace=True)] +
               [dict(zoo='compl', cfgs=ALL, ops=['start', 'pe:1', 'pe:2', 'pe:3', 'pe:4', 'eq:4', 'xq'], qbound=2),
                dict(zoo='defer_c', cfgs=ALL, ops=['start', 'pe:1', 'pe:2', 'pe:3', 'pe:4', 'pe:5'], qbound=2),
                dict(zoo='hier2_c', cfgs=['b', 'bc', 'b11', 'm', 'mf'], ops=['start', 'pe:1', 'eq:1', 'xq'], submits=1, guards=1, qbound=2)] +
